@@ -58,6 +58,9 @@ class Ctx:
         from .model import canonicalise_private_attributes, canonicalise_private_helpers, fold_constants
 
         self.folded_constants = fold_constants(self.prog)
+        from .model import inline_attribute_aliases
+
+        self.inlined_aliases = inline_attribute_aliases(self.prog)
         self.renamed_helpers = canonicalise_private_helpers(self.prog)
         self.renamed_helpers.update(canonicalise_private_attributes(self.prog))
         register_program_exceptions(self.prog)
@@ -78,6 +81,8 @@ class Ctx:
             self.notes.append("private helpers recognised by role under a new name: " + ", ".join(f"{k} <- {v}" for k, v in sorted(self.renamed_helpers.items())))
         if self.folded_constants:
             self.notes.append("constants bound once to a literal, read as that literal: " + ", ".join(self.folded_constants))
+        if self.inlined_aliases:
+            self.notes.append("local aliases of attribute chains read as the chain: " + ", ".join(self.inlined_aliases))
         if self.prog.unrolled:
             self.notes.append("loops over literal tables read as unrolled ladders: " + ", ".join(self.prog.unrolled))
         self.depth = 4 if tier == "quick" else 6
